@@ -42,8 +42,8 @@ func v6configs(thorough bool) []v6cfg {
 	if thorough {
 		return []v6cfg{
 			{"legacy na+pd k3", 3, true, true, false, 6, 2, 3 * time.Minute},
-			{"legacy na-only k3", 3, true, false, false, 6, 0, 90 * time.Second},
-			{"legacy pd-only k3", 3, false, true, false, 6, 0, 90 * time.Second},
+			{"legacy na-only k3", 3, true, false, false, 6, 0, 150 * time.Second},
+			{"legacy pd-only k3", 3, false, true, false, 6, 0, 150 * time.Second},
 			{"integrated na+pd k3", 3, true, true, true, 6, 2, 2 * time.Minute},
 		}
 	}
